@@ -37,6 +37,8 @@ pub struct PanicInfo {
     pub message: String,
     pub location: String,
     pub nested_lock: bool,
+    /// innermost frame inside /repo (function, file) when the panic fired in a dependency
+    pub repo_frame: Option<(String, String)>,
 }
 
 impl PanicInfo {
@@ -44,6 +46,12 @@ impl PanicInfo {
     /// signatures so that unrelated edits do not move a known finding.
     pub fn file(&self) -> String {
         let f = self.location.split(':').next().unwrap_or("").to_string();
+        if !f.contains("/repo/") {
+            if let Some((_, file)) = &self.repo_frame {
+                let dep = f.rsplit('/').next().unwrap_or("");
+                return format!("{file}(via {dep})");
+            }
+        }
         if let Some(i) = f.find("/repo/") {
             f[i + 6..].to_string()
         } else if let Some(i) = f.find("registry/src/") {
@@ -103,9 +111,11 @@ pub fn install_panic_hook() {
             if verbose {
                 eprintln!("[panic] {msg} at {loc}");
             }
-            if want_bt {
+            if want_bt || !loc.contains("/repo/") {
                 let bt = std::backtrace::Backtrace::force_capture().to_string();
                 LAST_BT.with(|b| *b.borrow_mut() = Some(bt));
+            } else {
+                LAST_BT.with(|b| *b.borrow_mut() = None);
             }
             LAST_PANIC.with(|p| *p.borrow_mut() = Some((msg, loc)));
         }));
@@ -114,6 +124,21 @@ pub fn install_panic_hook() {
 
 pub fn last_backtrace() -> Option<String> {
     LAST_BT.with(|b| b.borrow_mut().take())
+}
+
+fn first_repo_frame(bt: &str) -> Option<(String, String)> {
+    let lines: Vec<&str> = bt.lines().collect();
+    for i in 0..lines.len() {
+        let l = lines[i].trim();
+        if let Some(rest) = l.strip_prefix("at ") {
+            if let Some(p) = rest.find("/repo/") {
+                let file = rest[p + 6..].split(':').next().unwrap_or("").to_string();
+                let func = if i > 0 { lines[i - 1].trim().splitn(2, ": ").nth(1).unwrap_or("").to_string() } else { String::new() };
+                return Some((func, file));
+            }
+        }
+    }
+    None
 }
 
 /// Run `f`, converting an unwind into `PanicInfo`.
@@ -126,7 +151,8 @@ pub fn guarded<T>(f: impl FnOnce() -> T) -> Result<T, PanicInfo> {
             let (message, location) = LAST_PANIC
                 .with(|p| p.borrow_mut().take())
                 .unwrap_or_else(|| ("<unknown>".into(), String::new()));
-            Err(PanicInfo { message, location, nested_lock: nested })
+            let repo_frame = LAST_BT.with(|b| b.borrow_mut().take()).and_then(|bt| first_repo_frame(&bt));
+            Err(PanicInfo { message, location, nested_lock: nested, repo_frame })
         }
     }
 }
